@@ -19,8 +19,11 @@ EncLens == {0, 1, 2, 100, 190, 191, 192, 193, 255, 256, 1723, 8382, 8383, 8384, 
 EncTags == {0, 1, 2, 6, 11, 13, 14, 17, 18, 40, 60, 63}
 EncCases == {[k |-> "enc", tag |-> t, n |-> n] : t \in EncTags, n \in {0, 191, 192, 8383, 8384}}
             \cup {[k |-> "enc", tag |-> t, n |-> n] : t \in {13, 61}, n \in EncLens}
-\* exhaustive sweep of the one/two-octet range (model only, and replayed through the Go transcription)
-SweepCases == {[k |-> "sweep", tag |-> 13, n |-> n] : n \in 0..8500}
+\* sweep of the one/two-octet range (model only; the Go transcription repeats the whole sweep against the real code)
+CONSTANT SweepSet
+SweepQ == (0..300) \cup (8300..8500)
+SweepT == 0..8500
+SweepCases == {[k |-> "sweep", tag |-> 13, n |-> n] : n \in SweepSet}
 
 (* family "read": crafted packets in every header form, read back whole and cut at every interesting offset *)
 FormLens(f) == CASE f = "new1" -> {0, 1, 100, 190, 191}
@@ -69,7 +72,7 @@ PartialCases == {[k |-> "read", form |-> "partial", tag |-> t, n |-> PowSum(ks) 
 (* family "writer": SerializeLiteral(w, true, name, 0) then Write sizes then Close: the partial-length writer sees the
    writes <<2, Len(name), 4>> \o sizes *)
 WMenu == {0, 1, 2, 3, 255, 256, 257, 500, 505, 506, 507, 511, 512, 513, 1023, 1024, 1025, 1535, 4096, 65536}
-WMenuQ == {0, 1, 3, 255, 256, 505, 506, 507, 511, 512, 513, 1024, 1025, 4096}
+WMenuQ == {0, 1, 3, 255, 506, 507, 512, 513, 1025, 4096}
 CONSTANTS WSizes, WNames, WMaxLen
 WriterCases == {[k |-> "writer", L |-> L, sizes |-> s] : L \in WNames, s \in UNION {[1..m -> WSizes] : m \in 0..WMaxLen}}
 WritesOf(x) == <<2, x.L, 4>> \o x.sizes
